@@ -50,10 +50,43 @@ def cases(tier, seed):
     for k in (1, 2, 3, 4):
         for seq in itertools.product(shapes, repeat=k):
             yield {"kind": "seq", "t": "seq", "shape": list(seq), "records": [shapes[s] for s in seq]}
+            if k <= 3:
+                # the same records coming from different sources: equal descriptors that are distinct objects
+                yield {"kind": "seq", "t": "seq", "shape": list(seq), "records": [shapes[s] for s in seq], "fresh_descriptors": True}
+    # grouped records of different composition through one writer (they all share one Python class)
+    GA = {"group": "x/g", "members": [A, rs("x/m", [["varint", "port"]], ["80"])]}
+    GB = {"group": "x/g", "members": [rs("x/h", [["string", "host"]], ["'h'"]), B]}
+    gshapes = {"GA": GA, "GB": GB, "A": A}
+    for k in (1, 2, 3):
+        for seq in itertools.product(gshapes, repeat=k):
+            if any(s.startswith("G") for s in seq):
+                yield {"kind": "seq", "t": "grouped-seq", "shape": list(seq), "records": [gshapes[s] for s in seq]}
     for delim, header, rows in itertools.product([",", ";", "\t", "|"],
                                                  [["a", "b"], ["my col", "b-c"], ["x(y)", "n"], ["1st", "_hid", "ok"], ["A", "a2", "c"]],
                                                  [[["v1", "v2", "v3"], ["w1", "w2", "w3"]], [["1", "2", "3"], ["x y", "z", "q"], ["e", "f", "g"]]]):
         yield {"kind": "csvread", "t": "csvread", "delim": delim, "header": header, "rows": [r[: len(header)] for r in rows]}
+
+
+def slot_names(r):
+    """All field names of a record in output order; for a grouped record the union over its members, first occurrence wins."""
+    if hasattr(r, "records") and hasattr(r, "fieldname_to_record"):
+        out = []
+        for m in r.records:
+            for k in m.__slots__:
+                if k not in out:
+                    out.append(k)
+        return out
+    return list(r.__slots__)
+
+
+def field_types(r):
+    members = r.records if hasattr(r, "records") and hasattr(r, "fieldname_to_record") else [r]
+    types = {}
+    for m in members:
+        for ft_, fn in m._desc.get_field_tuples():
+            types.setdefault(fn, ft_)
+    types.update({"_source": "string", "_classification": "string", "_generated": "datetime", "_version": "varint"})
+    return types
 
 
 def textform(v):
@@ -95,7 +128,7 @@ def csv_check(records, fields, exclude, lt, case, viol):
         want = []
         prev = None
         for r in records:
-            names = [k for k in (fields if fields else r.__slots__) if k in r.__slots__ and not (exclude and k in exclude)]
+            names = [k for k in (fields if fields else slot_names(r)) if k in slot_names(r) and not (exclude and k in exclude)]
             if prev is None or prev != (r._desc.name, tuple(r._desc.get_field_tuples())):
                 want.append(list(names))
                 prev = (r._desc.name, tuple(r._desc.get_field_tuples()))
@@ -103,7 +136,7 @@ def csv_check(records, fields, exclude, lt, case, viol):
         real_lt = (lt or "\r\n").replace("\\r", "\r").replace("\\n", "\n").replace("\\t", "\t")
         if rows != want:
             i = next((i for i, (a, b) in enumerate(zip(rows, want)) if a != b), min(len(rows), len(want)))
-            lb = {c for r in records for k in r.__slots__ for c in textform(getattr(r, k)) if c in "\r\n"}
+            lb = {c for r in records for k in slot_names(r) for c in textform(getattr(r, k)) if c in "\r\n"}
             if lb and not lb <= set(real_lt):
                 kind0 = "linebreak-char-not-in-lineterminator"
             else:
@@ -149,14 +182,13 @@ def line_check(records, fields, exclude, verbose, case, viol):
         # expected text, block by block (values may span lines: compare the exact block text)
         pos = 0
         for i, r in enumerate(records, start=1):
-            names = [k for k in (fields if fields else r.__slots__) if k in r.__slots__ and not (exclude and k in exclude)]
+            names = [k for k in (fields if fields else slot_names(r)) if k in slot_names(r) and not (exclude and k in exclude)]
             head = "--[ RECORD %d ]--\n" % i
             if not text.startswith(head, pos):
                 viol.append(("C20:line:block-header", case, {"record": i, "at": text[pos:pos + 40], "options": kw}))
                 return "diff"
             pos += len(head)
-            types = {fn: ft for ft, fn in r._desc.get_field_tuples()}
-            types.update({"_source": "string", "_classification": "string", "_generated": "datetime", "_version": "varint"})
+            types = field_types(r)
             for k in names:
                 key = "%s (%s)" % (k, types[k]) if verbose else k
                 val = "{}".format(getattr(r, k))
@@ -290,10 +322,15 @@ def run_case(case):
         o = csvread_check(case, viol)
         return {"ev": 1, "h": h, "nt": True, "out": "csvread:" + o, "viol": viol}
     try:
-        records = [recs.build_record(r) for r in case["records"]]
+        recs.FRESH_DESCRIPTORS[0] = bool(case.get("fresh_descriptors"))
+        try:
+            records = [recs.build_record(r) for r in case["records"]]
+        finally:
+            recs.FRESH_DESCRIPTORS[0] = False
     except Exception as e:  # noqa: BLE001
         return {"ev": 1, "h": h, "nt": False, "out": "rejected:" + type(e).__name__}
-    names0 = [f[1] for f in case["records"][0]["fields"]]
+    first = case["records"][0]
+    names0 = [f[1] for f in first["fields"]] if "fields" in first else [n for _, n in records[0]._desc.get_field_tuples()]
     n = 0
     csv_opts = [(None, None, None)]
     line_opts = [(None, None, False), (None, None, True)]
@@ -311,6 +348,8 @@ def run_case(case):
         n += 1
         outs.append("line:" + line_check(records, f, x, vb, case, viol))
     for sp in specs:
+        if case["t"] == "grouped-seq":
+            break  # the printable representation of a grouped record is its member list: not a field rendering
         n += 1
         outs.append("text:" + text_check(records, sp, case, viol))
     seen = set()
